@@ -59,6 +59,21 @@ elif name == "cache_fixed":           # only the proposed repair of the cached s
 elif name == "cache_check_only_scan_fixed":  # the repair applied to scan.steady_state but not to mc.steady_state
     subprocess.run(["patch", "-p1", "-s", "-i", "/verif/fixes/C09-cached-steady-state-unique-index.diff"], check=True)
     sub("src/mxlpy/mc.py", "    if cache is not None:\n        _require_unique_index(mc_to_scan)\n\n", "")
+elif name == "row_cache_put_back":   # third pass: the task keeps the copied cache across the row's updates (stale cache of a used model)
+    sub("src/mxlpy/scan.py", "    pd = pars.to_dict()\n", "    pd = pars.to_dict()\n    kept = model._cache\n")
+    sub("src/mxlpy/scan.py", "    return fn(model)\n", "    model._cache = kept\n    return fn(model)\n")
+elif name == "update_variable_undecorated":  # Model.update_variable no longer drops the cache (a used model keeps a stale one)
+    sub("src/mxlpy/model.py", "    @_invalidate_cache\n    def update_variable(", "    def update_variable(")
+elif name == "batch_mutators_decorated":  # the batch mutators carry @_invalidate_cache themselves: property holds, must stay GREEN
+    sub("src/mxlpy/model.py", "    def update_variables(", "    @_invalidate_cache\n    def update_variables(")
+    sub("src/mxlpy/model.py", "    def update_parameters(", "    @_invalidate_cache\n    def update_parameters(")
+elif name == "view_leaves_old_tree":  # simulation.py as it was before 4167248 (views leave the last segment's parameters): must stay GREEN
+    diff = subprocess.run(["git", "-C", "/repo", "show", "4167248", "--", "src/mxlpy/simulation.py"], capture_output=True, text=True, check=True).stdout
+    subprocess.run(["patch", "-p1", "-s", "-R"], input=diff, text=True, check=True)
+elif name == "seed4_y0_to_worker":   # seeded change C09-4 re-based on 691be8b (its hunk for scan.steady_state no longer applies: the
+    # cache test now stands between the docstring and the y0 statement): all other hunks from the stored patch, that one by hand
+    subprocess.run(["patch", "-p1", "-s", "--force", "--no-backup-if-mismatch", "-r", "-", "-i", "/verif/seeded/C09-4/patch.diff"], check=False)
+    sub("src/mxlpy/scan.py", "    if y0 is not None:\n        model.update_variables(y0)\n\n", "    # The caller's model is left untouched: `y0` is handed on to the worker\n")
 elif name == "none_fixed":
     pass
 else:
